@@ -54,9 +54,29 @@ def gen_case(rng, tier, idx):
     base = "~~%d" % rng.randint(0, 10 ** 6)
     lines = [T.gen_line(rng, cfg, "%s~%d~~" % (base, i)) for i in range(n)]
     entry = rng.choice(["content", "content", "file", "provider", "provider_file"])
+    width = rng.random() < 0.15
+    if width:
+        # the width-preserving path (the netstat_-neopa spec): column-aligned lines, the same address several times a line
+        pool = rng.sample(["1.2.3.4", "192.168.100.200", "10.9.8.7", "172.16.254.123", "8.8.8.8", "100.100.100.100", "10.230.230.3"], rng.randint(1, 3))
+        pad = " " * rng.choice([13, 16, 20])
+        lines = []
+        for i in range(n):
+            ls = T.gen_line(rng, cfg, "%s~%d~~" % (base, i), kinds=["ip", "ip", "ip", "fill"], ip_pool=pool, nslots=rng.randint(2, 5))
+            seen_ips = {}
+            for sl in ls["slots"]:
+                if sl[0] == "ip" and sl[2][len(sl[1]):] in (".", ",", "/8", "/24"):
+                    sl[2] = sl[1] + rng.choice(["", ":22", ":65535"])
+                if sl[0] == "ip":
+                    # as in netstat output an address occurs at most twice a line (local and foreign); with more
+                    # occurrences the re-padding eats into its own substitutes and raises (nothing is emitted: no leak)
+                    seen_ips[sl[1]] = seen_ips.get(sl[1], 0) + 1
+                    if seen_ips[sl[1]] > 2:
+                        sl[0], sl[1], sl[2] = "fill", "LISTEN", "LISTEN"
+            ls["d"] = pad
+            lines.append(ls)
     no_obf = rng.sample(OBF_NAMES, rng.choice([0, 0, 0, 1, 2])) if rng.random() < 0.5 else []
     return {"cfg": cfg, "lines": lines, "entry": entry, "no_obfuscate": no_obf, "no_redact": rng.random() < 0.15,
-            "blank_lines": rng.random() < 0.2}
+            "blank_lines": rng.random() < 0.2, "width": width}
 
 
 def nontrivial(spec):
@@ -68,12 +88,19 @@ def clean_via(spec, cleaner, lines, ctx):
     """returns the cleaned lines through the chosen entry point"""
     entry = spec["entry"]
     no_obf, no_red = spec["no_obfuscate"], spec["no_redact"]
+    width = bool(spec.get("width"))
+    relname = "insights_commands/netstat_-neopa" if width else "etc/f.txt"
     if entry == "content":
+        if width:
+            ctx.count("width_preserving_runs")
+            return cleaner.clean_content(list(lines), no_obfuscate=list(no_obf), no_redact=no_red, width=True)
         return cleaner.clean_content(list(lines), no_obfuscate=list(no_obf), no_redact=no_red)
     base = tempfile.mkdtemp(prefix="vpc08_")
     try:
+        if width:
+            ctx.count("width_preserving_runs")
         if entry == "file":
-            p = os.path.join(base, "f.txt")
+            p = os.path.join(base, "netstat_-neopa" if width else "f.txt")
             with open(p, "w") as f:
                 f.write("".join(l + "\n" for l in lines))
             cleaner.clean_file(p, no_obfuscate=list(no_obf), no_redact=no_red)
@@ -89,12 +116,12 @@ def clean_via(spec, cleaner, lines, ctx):
             no_redact = no_red
         hc = HostContext(root=base)
         if entry == "provider":
-            prov = DatasourceProvider(list(lines), "rel/path.txt", ds=DS(), ctx=hc, cleaner=cleaner)
+            prov = DatasourceProvider(list(lines), relname if width else "rel/path.txt", ds=DS(), ctx=hc, cleaner=cleaner)
         else:
-            os.makedirs(os.path.join(base, "etc"))
-            with open(os.path.join(base, "etc", "f.txt"), "w") as f:
+            os.makedirs(os.path.join(base, os.path.dirname(relname)))
+            with open(os.path.join(base, relname), "w") as f:
                 f.write("".join(l + "\n" for l in lines))
-            prov = TextFileProvider("etc/f.txt", root=base, ctx=hc, cleaner=cleaner)
+            prov = TextFileProvider(relname, root=base, ctx=hc, cleaner=cleaner)
             prov.ds = DS()
         dst = os.path.join(base, "out", "x.txt")
         try:
@@ -173,6 +200,8 @@ def run_case(spec, ctx):
                         ctx.violation("password-secret-survived", {"secret": v, "slot": shown, "line": line, "output": o})
                 elif k == "ip" and check_ip and v != "127.0.0.1":
                     ctx.count("ip_tokens_checked")
+                    if spec.get("width"):
+                        ctx.count("ip_tokens_checked_on_width_preserving_path")
                     if v in subs_ip:
                         ctx.count("ip_equal_to_an_issued_substitute")
                         continue
@@ -190,7 +219,7 @@ def run_case(spec, ctx):
                         ctx.violation("host-name-survived", {"kind": k, "name": v, "fqdn": fqdn, "line": line, "output": o})
     # residue check: a planted token must be replaced as a whole (its slot in the output skeleton is exactly a
     # substitute the obfuscator reports, plus the planted suffix), never only in part
-    if spec["entry"] in ("content", "provider") and not spec["blank_lines"]:
+    if spec["entry"] in ("content", "provider") and not spec["blank_lines"] and not spec.get("width"):
         for ls in specs:
             outs = outby.get(ls["tag"], [])
             if len(outs) != 1 or any(s[0] in ("pw", "kw", "drop") for s in ls["slots"]):
